@@ -200,7 +200,7 @@ def run_coop(seed, profile, backend, tid, hook=None):
             while live and nsteps < 400:
                 nsteps += 1
                 j = rng.choice(live)
-                op = {"op": "CoopNext", "g": j + 1, "done": False, "result": [], "net": []}
+                op = {"op": "CoopNext", "g": j + 1, "done": False, "result": [], "net": [], "weids": []}
                 res = {"exc": "", "pages": 0, "created": [], "ret": None}
                 del impl.WRITE_LOG[:]
                 try:
@@ -218,6 +218,8 @@ def run_coop(seed, profile, backend, tid, hook=None):
                                 op["result"] = list(results[j])
                             if descr[j]["kind"] == "qnet":
                                 op["net"] = net_triples(state.result)
+                            if descr[j]["kind"] in ("qoutlinks", "qinlinks"):
+                                op["weids"] = list(results[j])
                 except StopIteration:
                     op["done"] = True
                     live.remove(j)
@@ -292,7 +294,7 @@ def replay_coop(backend, default, rules, ops, tid=0):
                 elif op["op"] == "CoopNext":
                     seen_next += 1
                     j = op["g"] - 1
-                    o2 = {"op": "CoopNext", "g": j + 1, "done": False, "result": [], "net": []}
+                    o2 = {"op": "CoopNext", "g": j + 1, "done": False, "result": [], "net": [], "weids": []}
                     res = {"exc": "", "pages": 0, "created": [], "ret": None}
                     try:
                         with warnings.catch_warnings(), impl.time_limit():
@@ -308,6 +310,8 @@ def replay_coop(backend, default, rules, ops, tid=0):
                                     o2["result"] = list(results[j])
                                 if descr[j]["kind"] == "qnet":
                                     o2["net"] = net_triples(state.result)
+                                if descr[j]["kind"] in ("qoutlinks", "qinlinks"):
+                                    o2["weids"] = list(results[j])
                     except StopIteration:
                         o2["done"] = True
                     except Exception as e:
